@@ -1162,6 +1162,23 @@ func accessTable(it Item) (string, error) {
 			}
 		}
 	}
+	recvNameOf := func(fn string) string {
+		fd := a.funcs[fn]
+		if fd != nil && fd.Recv != nil && len(fd.Recv.List) > 0 && len(fd.Recv.List[0].Names) > 0 {
+			return fd.Recv.List[0].Names[0].Name
+		}
+		return ""
+	}
+	isEntry := func(n string) bool {
+		base := n
+		if i := strings.Index(n, "."); i >= 0 {
+			base = n[i+1:]
+		}
+		if a.valueUse[n] || len(a.goRoots[n]) > 0 || a.lifeFns[n] || !hasCaller[n] {
+			return true
+		}
+		return ast.IsExported(base) && (extNames[base] || wellKnownEntry[base])
+	}
 	// helper functions executed only inside a Start segment (e.g. registerMetrics) --------------
 	helperSeg := map[string]int{}   // function -> segment
 	helperOf := map[string]string{} // function -> its Start function
@@ -1170,8 +1187,7 @@ func accessTable(it Item) (string, error) {
 			if a.startFns[n] || a.lifeFns[n] || a.valueUse[n] || len(a.goRoots[n]) > 0 || !strings.Contains(n, ".") {
 				continue
 			}
-			base := n[strings.Index(n, ".")+1:]
-			if ast.IsExported(base) {
+			if isEntry(n) {
 				continue
 			}
 			seg, owner, ok, any := 0, "", true, false
@@ -1339,6 +1355,56 @@ func accessTable(it Item) (string, error) {
 			finalFrom[n] = pos
 		}
 	}
+	// locks inherited from the callers: an internal helper that is only ever called (directly, on the
+	// caller's own receiver) while the receiver's lock m is held runs with m held
+	inherit := map[string]map[string]bool{} // function -> lock field -> exclusive
+	for round := 0; round < 4; round++ {
+		for _, n := range names {
+			if !strings.Contains(n, ".") || isEntry(n) {
+				continue
+			}
+			var acc map[string]bool
+			ok := true
+			for _, cs := range a.calls {
+				if cs.callee != n {
+					continue
+				}
+				if cs.inClosure || cs.forceRole != "" || cs.recvText == "" || cs.recvText != recvNameOf(cs.caller) ||
+					recvStruct(a.funcs[cs.caller]) != recvStruct(a.funcs[n]) {
+					ok = false
+					break
+				}
+				here := map[string]bool{}
+				for k, x := range cs.held {
+					parts := strings.SplitN(k, "\x00", 2)
+					if parts[0] == cs.recvText {
+						here[parts[1]] = x
+					}
+				}
+				for m, x := range inherit[cs.caller] {
+					if old, has := here[m]; !has || (x && !old) {
+						here[m] = x
+					}
+				}
+				if acc == nil {
+					acc = here
+				} else {
+					for m, x := range acc {
+						if y, has := here[m]; !has {
+							delete(acc, m)
+						} else {
+							acc[m] = x && y
+						}
+					}
+				}
+			}
+			if ok && len(acc) > 0 {
+				inherit[n] = acc
+			} else {
+				delete(inherit, n)
+			}
+		}
+	}
 	// rows ------------------------------------------------------------------------------------
 	var rows []atSite
 	for _, ac := range a.accesses {
@@ -1355,6 +1421,20 @@ func accessTable(it Item) (string, error) {
 		}
 		sort.Strings(roles)
 		row := atSite{st: ac.st, field: ac.field, fn: ac.fn, kind: ac.kind, locks: ac.locks, roles: roles}
+		if inh := inherit[ac.fn]; len(inh) > 0 && !ac.inClosure && ac.forceRole == "" && ac.base == recvNameOf(ac.fn) {
+			have := map[string]bool{}
+			for _, l := range row.locks {
+				have[strings.SplitN(l, "\x00", 2)[0]] = true
+			}
+			merged := append([]string{}, row.locks...)
+			for m, x := range inh {
+				if !have[m] {
+					merged = append(merged, fmt.Sprintf("%s\x00%v", m, x))
+				}
+			}
+			sort.Strings(merged)
+			row.locks = merged
+		}
 		recvName := ""
 		if ac.decl.Recv != nil && len(ac.decl.Recv.List) > 0 && len(ac.decl.Recv.List[0].Names) > 0 {
 			recvName = ac.decl.Recv.List[0].Names[0].Name
